@@ -165,6 +165,9 @@ def _cl_eval(fam, impl, par, x):
     res = dict(dtype="float64", y=np.asarray(t["forward"](x), dtype=float))
     if t.get("inverse") is not None:
         res["xinv"] = np.asarray(t["inverse"](res["y"]), dtype=float)
+    if t.get("jac") is not None and fam in ("uniform", "laplace"):
+        v, j, ja = t["jac"](x)
+        res.update(linval=np.asarray(v, dtype=float), jac=np.asarray(j, dtype=float), jacadj=np.asarray(ja, dtype=float))
     return res
 
 
@@ -259,6 +262,10 @@ def checks(fam, impl, par, x, res, eps):
                 xr = ndtri(np.where(inside, pe, 0.5))
                 ue = eps * (pe / _phi(xr) + np.abs(xr)) + TINY
             out.append(("inverse-exact", np.where(inside, np.abs(res["xinv"] - xr), 0.0), np.where(inside, ue, np.inf)))
+        if "jac" in res:
+            # classic Jacobian scale*phi(x): phi has relative condition x^2
+            J = Wf * _phi(x)
+            out.append(("jacobian", np.abs(res["jac"] - J), eps * J * (2.0 + x * x) + TINY))
     elif fam == "laplace":
         sc, loc = par["scale"], par.get("loc", 0.0)
         q = laplace_q(x)
@@ -274,6 +281,12 @@ def checks(fam, impl, par, x, res, eps):
             dz = eps * (abs(loc) / sc + np.abs(q) + 1.0)
             dp = np.where(x < 0, P * (dz + eps * (1 + x * x)), ndtr(-ax) * dz + eps)
             out.append(("inverse", np.abs(res["xinv"] - x), _resolvable(dp, x, dp / _phi(x) + eps * ax + TINY)))
+        if "jac" in res:
+            # classic Jacobian scale*phi(x)/min(Phi,1-Phi): phi has relative condition x^2, Phi in the lower tail too; in the upper
+            # tail the code forms 1-Phi(x) from the rounded cdf value: relative error eps/(1-Phi(x))
+            tail = ndtr(-ax)
+            J = sc * _phi(x) / tail
+            out.append(("jacobian", np.abs(res["jac"] - J), eps * J * (3.0 + 2 * x * x + np.where(x > 0, 1.0 / tail, 0.0)) + TINY))
     return out
 
 
@@ -353,6 +366,9 @@ def oracle_extreme(case):
         # monotone: exact order of the outputs on the sorted grid. Exception: float32 through jnp.exp / cdf / logcdf -- XLA's
         # CPU float32 `exp` is position dependent (15 equal float32 arguments give two different results, vector lanes vs
         # remainder loop, for ~10% of the arguments; float64: none of 4001) -> 2 ulp slack there, exact everywhere else
+        if "jac" in res and not (np.array_equal(res["linval"], y) and np.array_equal(res["jac"], res["jacadj"])):
+            return (f"extreme {fam}/{impl} {par}: Linearization value differs from the plain value or Jacobian from its adjoint",
+                    dict(sig, kind="extreme-linearization"))
         dy = np.diff(y)
         slack = 2 * EPS32 * np.maximum(np.abs(y[1:]), np.abs(y[:-1])) if ("f32" in mode and fam != "normal") else 0.0
         if np.any(dy < -slack):
@@ -505,16 +521,22 @@ def gen_extreme(rng, quick, npts=15):
             m = _loc(rng, k + 1)
             cases.append(dict(op="extreme", fam="lognormal", par=dict(mean=m, std=m * r), x=gen_xpoints(rng, npts),
                               impls=list(RE_IMPLS) + ["cl.vector", "cl.scalar"]))
-            # --- normal: |mean| tiny ... huge, std/|mean| = r (every third decade: mean = 0 and std over 24 decades)
+            # --- normal: |mean| tiny ... huge, std/|mean| = r; every third decade additionally mean = 0, std over 24 decades
             m = _loc(rng, k + 2)
-            par = dict(mean=sgn * m, std=m * r) if k % 3 else dict(mean=0.0, std=_lu(rng, 1e-12, 1e12))
-            cases.append(dict(op="extreme", fam="normal", par=par, x=gen_xpoints(rng, npts),
-                              impls=list(RE_IMPLS) + ["cl.vector", "cl.scalar"]))
-            # --- uniform: near-degenerate intervals (b-a)/|a| = r; every third: a = 0 exactly (relative accuracy of the tail)
+            imp = list(RE_IMPLS) + ["cl.vector", "cl.scalar"]
+            cases.append(dict(op="extreme", fam="normal", par=dict(mean=sgn * m, std=m * r), x=gen_xpoints(rng, npts), impls=imp))
+            if k % 3 == 0:
+                cases.append(dict(op="extreme", fam="normal", par=dict(mean=0.0, std=_lu(rng, 1e-12, 1e12)),
+                                  x=gen_xpoints(rng, npts), impls=imp))
+            # --- uniform: near-degenerate intervals (b-a)/|a| = r; every third decade additionally a = 0 exactly (there the
+            #     relative accuracy of the lower tail is visible)
             a = _loc(rng, k + 3)
-            par = dict(a=sgn * a, b=sgn * a + a * r) if k % 3 != 1 else dict(a=0.0, b=_lu(rng, 1e-12, 1e12))
+            par = dict(a=sgn * a, b=sgn * a + a * r)
             if par["a"] < par["b"]:
                 cases.append(dict(op="extreme", fam="uniform", par=par, x=gen_xpoints(rng, npts),
+                                  impls=list(RE_IMPLS) + ["cl.op"]))
+            if k % 3 == 1:
+                cases.append(dict(op="extreme", fam="uniform", par=dict(a=0.0, b=_lu(rng, 1e-12, 1e12)), x=gen_xpoints(rng, npts),
                                   impls=list(RE_IMPLS) + ["cl.op"]))
             # --- Laplace: JAX (scale only, 24 decades) and classic (loc, scale = |loc| r)
             cases.append(dict(op="extreme", fam="laplace", par=dict(scale=_lu(rng, 1e-12, 1e12)), x=gen_xpoints(rng, npts),
